@@ -415,6 +415,10 @@ def u2(rep, src):
                         okb, why = True, "count of First aggregates == 1"
                     elif set(gbp) & names and not [m for m in find(cnt, "mcall") if m["m"] in ("filter", "skip", "take", "filter_map")]:
                         okb, why = True, "number of grouping columns == 1"
+                        # this reason reads every First aggregate as THE grouping key: sound only while the builders that emit First(col) for a list of
+                        # fields group by that same list (SELECT DISTINCT): pair-sensitive check of the producer side
+                        for bad_fn, wi, gi in first_convention(src):
+                            rep.violation("U2", Q + "@first-convention", "schema_aggregate flags every First column of a single-key Reduce as UNIQUE, but %s emits First(..) over `%s` while grouping by `%s`: non-key columns are declared unique" % (bad_fn.qual, wi, gi), bad_fn.where())
                     else:
                         why = "the count is neither over the First aggregates nor over the grouping columns: %s" % show(cnt, 80)
                 else:
@@ -454,6 +458,39 @@ def u2(rep, src):
 
 
 # ------------------------------------------------------------------------------------------------ U3
+
+
+def first_convention(src):
+    """Reduce builders of relation/rewriting.rs that emit `First(col f)` for the fields of a list but group by another list: [(fn, first-list, group-list)]."""
+    out = []
+    for f in src.fns:
+        if f.test or not f.body or f.file != "relation/rewriting.rs":
+            continue
+        for b in find(f.body, "mcall"):
+            if b["m"] != "build":
+                continue
+            chain, r = [], b
+            while r["k"] == "mcall":
+                chain.append(r)
+                r = r["recv"]
+            if not is_call_to(r, "Relation::reduce"):
+                continue
+            wi = [c for c in chain if c["m"] == "with_iter" and c["args"] and any(is_call_to(x, "Expr::first") for x in walk(c["args"][0]))]
+            gi = [c for c in chain if c["m"] == "group_by_iter" and c["args"]]
+            if len(wi) != 1 or len(gi) != 1:
+                continue
+
+            def root(e):
+                while e["k"] == "mcall":
+                    e = e["recv"]
+                while e["k"] == "ref":
+                    e = e["e"]
+                return path_of(e)
+
+            a, g = root(wi[0]["args"][0]), root(gi[0]["args"][0])
+            if a is None or g is None or a != g:
+                out.append((f, show(wi[0]["args"][0], 50), show(gi[0]["args"][0], 50)))
+    return out
 
 
 def names_in(e):
